@@ -1,6 +1,7 @@
 use crate::fw::Ctx;
 
 pub mod c03;
+pub mod c04;
 pub mod c06;
 pub mod c07;
 pub mod c12;
@@ -17,6 +18,7 @@ pub struct Prop {
 
 pub const PROPS: &[Prop] = &[
     Prop { id: "C03", run: c03::run, replay: c03::replay },
+    Prop { id: "C04", run: c04::run, replay: c04::replay },
     Prop { id: "C06", run: c06::run, replay: c06::replay },
     Prop { id: "C07", run: c07::run, replay: c07::replay },
     Prop { id: "C12", run: c12::run, replay: c12::replay },
